@@ -1,4 +1,11 @@
-(* Eval02.v — evaluation of C02 observations: generated deriveEqual vs model and specification. *)
+(* Eval02.v — evaluation of C02 observations: generated deriveEqual vs model and specification.
+
+   Types with their own Equal method (Go/Methods.v, by declaration id): 100..199 the method takes the other
+   VALUE; 200..299 the method is handed the other value's ADDRESS.  plugin/equal emits the same text for a
+   method with a pointer parameter and for one with an interface parameter (this.F.Equal(&that.F) for a value
+   component, this.P.Equal(that.P) for a pointer component), so the harness declares both kinds in the second
+   range (hardening round 4: MI, MIc, XI with `interface{}`, MA with `any`; their methods assert that.( *T)
+   and answer false for anything else, so handing them the value is visible as "never equal"). *)
 From Coq Require Import String.
 From Verif Require Import Base Sexp Go.Ty Go.Val Go.Equal Go.Compare Go.Methods.
 Open Scope string_scope.
